@@ -118,6 +118,23 @@ def fail(clause, detail=''):
     return False
 
 
+class HarnessGap(BaseException):
+    """the harness relies on an internal name of the code under test that is no longer there: harness error (exit 3),
+    never a violation - a refactoring may rename internals freely"""
+
+
+_NOTHING = object()
+
+
+def internal(obj, name):
+    """read a private attribute the harness needs (to force a rare layout, to read a table); missing -> HarnessGap"""
+    with _notrace():
+        v = getattr(obj, name, _NOTHING)
+    if v is _NOTHING:
+        raise HarnessGap('%r has no attribute %r any more: the harness must be adapted' % (type(obj).__name__ if not isinstance(obj, type) and not hasattr(obj, '__file__') else getattr(obj, '__name__', obj), name))
+    return v
+
+
 def done(witness=True, kind=None, **sample):
     """Mark the end of a completed path; `witness` says the interesting predicate was reached."""
     w = True if witness else False          # decided under tracing (may be symbolic)
